@@ -452,6 +452,7 @@ def run(ctx, scratch):
     with Impl(scratch) as impl:
         run_operators(ctx, impl, rng, quick, dmax, depth_max, notes)
         run_utils(ctx, impl, rng, quick, dmax)
+        run_source_normalizer(ctx, impl, rng, quick)
     ctx.extra['aliasing'] = notes
     ctx.rule = ('operator expressions: class in {SparseLR/Regularizer (13 operations incl. normalize, directed2undirected), '
                 'Normalizer, Laplacian, CoNeighbor (6 operations), Polynome (3 operations)}, depth <= %d, every sparse operand '
@@ -467,6 +468,66 @@ def run(ctx, scratch):
                        'base matrices of CoNeighbor and Polynome have at least one stored entry (check_format rejects empty matrices)',
                        'directed2undirected / bipartite2* on operators: plain SparseLR objects (check_csr_or_slr rejects the Regularizer subclass)',
                        'cases where a pseudo-inverse is taken of a value within 1e-7 of zero (cancellation) are dropped and counted']
+
+
+def run_source_normalizer(ctx, impl, rng, quick):
+    """The four terms regenerated from operators.py (Gen/NpNormalizer.v; theorems source_normalizer_* of Props/C15.v), evaluated inside
+    Coq over exact rationals with the array semantics of Model/NpVec.v, must reproduce Normalizer.dot / Normalizer.T.dot."""
+    from fractions import Fraction
+    from ..common import clist, cq, safe_coq_eval
+    cases, exprs = [], []
+    for _ in range(25 if quick else 200):
+        n, k, m = rng.randint(1, 5), rng.randint(1, 5), rng.randint(1, 3)
+        A = [[rng.choice([0, 0, 1, 2, Fraction(1, 2), 3]) for _ in range(k)] for _ in range(n)]
+        reg = rng.choice([Fraction(0), Fraction(0), Fraction(1), Fraction(1, 2), Fraction(3)])
+        x = [Fraction(rng.randint(-4, 6), 2) for _ in range(k)]
+        y = [Fraction(rng.randint(-4, 6), 2) for _ in range(n)]
+        X = [[Fraction(rng.randint(-4, 6), 2) for _ in range(m)] for _ in range(k)]
+        Y = [[Fraction(rng.randint(-4, 6), 2) for _ in range(m)] for _ in range(n)]
+        fl = lambda M: [[float(v) for v in row] for row in M]
+        args = dict(A=fl(A), reg=float(reg), x=[float(v) for v in x], y=[float(v) for v in y], X=fl(X), Y=fl(Y))
+        r = impl.call('c15', 'normalizer_apply', args, timeout=30)
+        ctx.traces += 1
+        if 'ok' not in r:
+            ctx.violation('Normalizer', 'Normalizer(A, reg) raised on a valid operand', case=args, observed=r, check='source_term')
+            continue
+        qm = lambda M: clist([[Fraction(v) for v in row] for row in M], lambda row: clist(row, cq))
+        qv = lambda v: clist([Fraction(t) for t in v], cq)
+        ev = 'qenv_normalizer_v %s %d %d %s' % (qm(A), n, k, cq(reg))
+        em = 'qenv_normalizer_m %s %d %d %s' % (qm(A), n, k, cq(reg))
+        exprs.append('(map qz3 (qvresult (qvdenote (%s %s) src_normalizer_matvec_1d)), map qz3 (qvresult (qvdenote (%s %s) src_normalizer_rmatvec_1d)), '
+                     'map (map qz3) (qmresult (qvdenote (%s %s %d %d) src_normalizer_matvec_2d)), '
+                     'map (map qz3) (qmresult (qvdenote (%s %s %d %d) src_normalizer_rmatvec_2d)))'
+                     % (ev, qv(x), ev, qv(y), em, qm(X), k, m, em, qm(Y), n, m))
+        cases.append((args, r['ok']))
+    vals = safe_coq_eval(ctx, 'c15src', ['Base.Util', 'Model.NpExpr', 'Model.NpVec', 'Gen.NpNormalizer'], exprs,
+                         prelude='Definition qz3 (q : Q) : Z * Z := (Qnum q, Zpos (Qden q)).\n', shard=40) if exprs else []
+    n_src = 0
+
+    def fr(p):
+        return float(Fraction(p[0], p[1]))
+    for (args, got), v in zip(cases, vals or []):
+        n_src += 1
+        ctx.count('source_term:Normalizer', ('src', args), True)
+        exp = {'matvec_1d': [fr(p) for p in v[0]], 'rmatvec_1d': [fr(p) for p in v[1]],
+               'matvec_2d': [[fr(p) for p in row] for row in v[2]], 'rmatvec_2d': [[fr(p) for p in row] for row in v[3]]}
+        for key in exp:
+            a, b = np_flat(exp[key]), np_flat(got[key])
+            if len(a) != len(b) or any(abs(u - w) > 1e-9 * max(1.0, abs(u)) for u, w in zip(a, b)):
+                ctx.violation('Normalizer', 'the term regenerated from operators.py (src_normalizer_%s), evaluated with the array semantics '
+                              'of Model/NpVec.v, differs from the implementation' % key, case=args, expected=exp[key], observed=got[key],
+                              check='source_term', branch=key)
+    ctx.extra['source_terms_evaluated'] = n_src
+
+
+def np_flat(x):
+    out = []
+    for v in x:
+        if isinstance(v, list):
+            out.extend(np_flat(v))
+        else:
+            out.append(v)
+    return out
 
 
 def run_operators(ctx, impl, rng, quick, dmax, depth_max, notes):
